@@ -9,66 +9,66 @@ PY = '/venv/bin/python'
 
 # id -> (design section, technique, level text, level note)
 CHECKS = {
-    'C01': ('3/C01', 'bounded-exhaustive enumeration of datasets x candidates x schemes against a pair-by-pair reference score',
-            'Every dataset with <=4 elements/<=2 rankings (quick: DS(3,2), DS(2,3), DS(4,1)) and every complete or incomplete candidate is scored by the real library and compared with the literal definition; the positional base-64 scheme makes one equality decide all eight observable pair counters. Exhaustive within the bound, nothing sampled.',
+    'C01': ('3/C01, 8.2b', 'bounded-exhaustive enumeration of datasets x candidates x schemes against a pair-by-pair reference score; plus histories (one scoring factory reused across in-place mutations of the dataset object)',
+            'Every dataset of DS(3,2), DS(2,3), DS(4,1), DS(1,4) x every complete / superset / incomplete candidate x 19 schemes (positional base-64 scheme: one equality decides all eight observable pair counters), all 96 schemes over {0,1} on DS(3,1), DS(2,2); for every dataset of DS(3,2) and every in-place mutation (remove one element, remove empty rankings) the same factory scores every candidate against the same mutated object. Exhaustive within the bound, nothing sampled.',
             'small-scope hypothesis (n<=5, m<=5); dyadic penalties so float sums are exact; reference model trusted after its internal identities'),
-    'C02': ('3/C02', 'bounded-exhaustive enumeration of datasets x schemes; table compared entry-wise with a reference built from three 2-element reference scores per pair; all complete candidates summed',
-            'Every dataset of DS(3,2), DS(2,3), DS(4,1) (quick; DS(4,2), DS(3,3), DS(5,1) thorough) under 16 schemes: both matrix views, the cost table from both, mirror identities, and for every complete candidate the selected entries against the definition and against the library score.',
+    'C02': ('3/C02, 8.2b', 'bounded-exhaustive enumeration of datasets x schemes; table compared entry-wise with a reference built from three 2-element reference scores per pair; all complete candidates summed; every ordered pair of schemes requested one after the other (module-state histories)',
+            'Every dataset of DS(3,2), DS(2,3), DS(4,1) under 19 schemes (+ 96 schemes over {0,1} on the tiny blocks, DS(4,2) on two): both matrix views, the cost table from both, mirror identities, every complete candidate against the definition and the library score, and the table for s2 right after the table for s1 for every ordered pair of schemes.',
             'small-scope hypothesis; unit ranking weights; dyadic penalties'),
-    'C19': ('3/C19', 'exhaustive enumeration of all 12-tuples over small value grids, all ordered pairs of the 2916 valid schemes over {0,1,2}, all scalings; exact rational oracle',
-            'All 3^12 tuples over {0,1,2} and {-1,0,1} as ints and floats plus malformed shapes decide the validation clause with the documented exception precedence; all 8.5M ordered pairs decide both equivalence tests and the nickname; scaling and score homogeneity are enumerated over all valid schemes / DS(3,2) x all candidates.',
-            'penalty grid {0,.5,1,2,3}; bool/nan/inf entries not judged'),
-    'C17': ('3/C17', 'exhaustive enumeration of pairs of datasets over hash-colliding universes in every bucket insertion order, against a structural multiset oracle',
-            'All datasets with <=3 elements and <=2 rankings (thorough: 3 rankings / 4 elements), each bucket presented in every insertion order over labels that collide in set tables, compared pairwise (re-presentations, permutations, near misses, full cross products); ==, symmetry, != and agreement with Ranking.__eq__ matching are decided on every pair.',
+    'C03': ('3/C03, 8.2b', 'bounded-exhaustive enumeration of datasets x schemes x every algorithm configuration x both flags x all schedules (pivot draws, optimal vertices) in three process modes (CPLEX absent/real CBC, CPLEX absent/enumerating solver, cplex stand-in); structural oracle; histories on the algorithm object (reuse, reversed twin, other labels) and on the dataset object (looked at, mutated in place, reused)',
+            'Every dataset of DS(3,2), DS(2,3), DS(1,2) under int / reverse-int / letter / digit-string / int-str-mix labels, DS(4,2) for the in-process configurations, and the DS(3,3)+x sub-space (a non-tieable component next to another component) under mixed labels: at least one ranking, exactly one when asked, non-empty disjoint buckets whose union is the universe with types preserved, Ranking views consistent, reading the consensus (score, description, every top-k) changes neither it nor the dataset; refusals must be documented and justified; any other exception or a run that never returns is a violation.',
+            'the cplex stand-in (exhaustive 0/1 enumerator behind the CPLEX API subset used) replaces the absent solver; CBC is trusted on <=30-variable models'),
+    'C04': ('3/C04, 8.2b', 'same enumeration as C03 with a score oracle (fresh and reused algorithm objects, run-mutate-run histories), plus the BioConsert kernel explored from every start state of WO(k) for every distinct cost matrix',
+            'For every execution that yields a consensus the score feature is read before the lazy path runs (must be the -1 sentinel or already truthful) and kemeny_score must be a non-negative number within 1e-6 of the reference score of EVERY returned ranking; schemes include the positional base-64 scheme (scores ~1e13) and two schemes scaled by 2^-11; earlier results are re-read after later calls; the local-search bookkeeping is checked at its source from all start states.',
+            'dyadic penalties; stand-ins as in C03'),
+    'C05': ('3/C05, 8.2b', 'bounded-exhaustive enumeration of datasets x schemes x exact configurations x both flags x EVERY optimal vertex the solver may return, against a brute-force optimum over all rankings with ties; solver replaced by an exhaustive 0/1 enumerator (cplex stand-in, PuLP stand-in) and by real CBC',
+            'DS(3,2) x 19 schemes, DS(2,3), DS(4,2), the non-tieable cores of DS(3,3) under three schemes incl. p=0.375, the DS(3,3)+x sub-space, premutated inputs: result score == brute-force optimum; non-optimised CPLEX model with all rankings requested returns exactly the set of minimisers; feasible set of the unpruned ILP in bijection with WO(U) with objective == score at every point; the selector takes CPLEX when present and falls back to the free solver (real CBC) when absent. Thorough: DS(4,3), DS(5,2), structured families at n=6..8 against a subset-DP oracle.',
+            'real CPLEX never run (stand-in returns exactly the optimal points); CBC trusted on <=30-variable models and cross-checked by the enumerator; schemes with unit penalties below 1e-3 are not fed to the CPLEX-model path (its pruning tolerance is absolute, DESIGN 8.6)'),
+    'C06': ('3/C06, 8.2b', 'bounded-exhaustive enumeration of datasets x schemes x ParCons configurations (bounds 80/0/1/2/3, auxiliaries, all pivot schedules, three solver modes) against the set of ALL brute-force minimisers; structured sub-spaces for multi-component shapes',
+            'parcons_partition is a partition and some minimiser respects it; the ParCons consensus respects it and reports it as weak partitioning; necessarily_optimal implies optimal for EVERY configuration; the ParCons flag equals "no component larger than the bound that cannot be all-tied at minimal cost". DS(3,2), DS(3,3), DS(4,2) (partition), DS(3,3)+x, a two-block family of 7 elements (delegated 4-cycle next to an exactly solved 3-cycle, DP optimum), premutated inputs.',
+            'stand-ins as in C05'),
+    'C07': ('3/C07, 8.2b', 'bounded-exhaustive enumeration of datasets x schemes against the set of ALL brute-force minimisers; partition histories on a mutated dataset object; exhaustive enumeration of all (ordered partition, consensus) pairs for the consistency test',
+            'DS(3,2) x 19 schemes, DS(3,3) x 9, DS(4,2) x 3: ParFront is a partition, a merge of consecutive ParCons groups, and every minimiser respects it; the same after partition -> in-place mutation -> partition on one dataset object; consistent_with compared with its definition on all pairs of WO(U) x (WO(U) + rankings over sub/super/other sets), n<=4, with and without an associated dataset, under a watchdog.',
+            'malformed partitions / consensuses not covering their dataset are outside the property'),
+    'C08': ('3/C08, 8.2b', 'explicit-state exploration of the local search: every start state of WO(k) x every distinct cost matrix of the block through the real sweep and one real micro-step per (state, element); plus enumeration of all single-element moves of every ranking returned by the public API (fresh / reused / premutated inputs)',
+            'Local optimality is decided on all moves of all returned rankings for 9 BioConsert configurations (schemes incl. B[1]=1024 and 2^-11 scalings), and inductively at kernel level: from every state the micro step takes a legal improving move with an exact claimed delta or, if it takes none, no move of that element improves by more than the 0.001 threshold; the sweep ends in a local optimum with exact accumulated delta.',
+            'private jitted kernels named in the anchors are driven directly (degrades to the API level if renamed); a non-terminating kernel is reported through the parent-side hang detector'),
+    'C09': ('3/C09, 8.2b', 'bounded-exhaustive enumeration of datasets x schemes x 9 BioConsert configurations x both flags x all pivot schedules; starters re-run alone under the same schedule; reused objects, reversed twins, premutated inputs',
+            'Result score <= every unified input ranking and the all-tied ranking (no starters), <= the own consensus of each starting algorithm re-run alone under the same pivot schedule, all returned rankings share one score, default BioConsert <= PickAPerm; DS(4,2) is in the quick tier because the id-order defect needs four elements; 2^-11-scaled schemes expose any rounding of scores.',
+            'small-scope hypothesis'),
+    'C10': ('3/C10, 8.2b', 'bounded-exhaustive enumeration of datasets x schemes x both flags against a reference scan of the unified input rankings; fresh and long-lived algorithm objects; run-mutate-run histories',
+            'DS(3,2), DS(2,3) (22 schemes) and DS(4,2), DS(3,3) (5 schemes): returned rankings must be unified input rankings of minimal reference score, exactly the set of distinct minima when all are requested, and incomplete data with a scheme that is not an exact positive multiple of the unifying scheme must be refused.',
+            'small-scope hypothesis; a refusal may be any deliberate exception'),
+    'C11': ('3/C11, 8.2b', 'stateless exhaustive exploration of the whole pivot-choice tree (choice controller owns random.choice) for every dataset x scheme, compared with a reference KwikSort fed the recorded pivots; histories on a mutated dataset object',
+            'For every dataset of DS(3,2), DS(4,1), DS(2,3) x 19 schemes and DS(4,2), DS(3,3) x 3 schemes ALL pivot schedules are executed (about 9e5 executions): each result equals the reference simulation under the same pivots, and when the cheapest-placement relation is an antisymmetric weak order every schedule returns it.',
+            'pivot draws reach the library only via the random module (other sources raise); n<=4 (thorough 5)'),
+    'C12': ('3/C12, 8.2b', 'bounded-exhaustive enumeration of datasets x 27 schemes x both variants x both flags against a reference Borda in exact rationals; scheme sequences and run-mutate-run histories on long-lived objects; thorough: profile family with 15 rankings',
+            'Every dataset of the quick blocks under the four accepted families and their multiples {1,2,3,.5} plus 11 foreign schemes: groups in increasing exact mean, tied iff equal; incomplete data with a foreign scheme must raise ScoringSchemeNotHandledException; one long-lived object per variant is asked a fixed scheme sequence on every dataset. Thorough adds all 15-ranking datasets over 3 elements made of <= 3 ranking types (denominators up to 15).',
+            'small-scope hypothesis; quick tier decides tie detection for denominators <= 4'),
+    'C13': ('3/C13, 8.2b', 'bounded-exhaustive enumeration of datasets x 19 schemes against victories/equalities/defeats recomputed from the reference cost table; fresh and long-lived objects; run-mutate-run histories',
+            'DS(3,2), DS(2,3), DS(4,1) x 19 schemes (incl. the positional scheme whose penalties span 12 orders of magnitude) and DS(4,2) x 4: ranking by decreasing reference Copeland score, feature dictionaries keyed by exactly the universe with the reference numbers, counts sum to n-1 and scores to n(n-1)/2.',
+            'small-scope hypothesis; dyadic penalties so cost comparisons are exact'),
+    'C14': ('3/C14, 8.2b', 'exhaustive enumeration of configurations (incl. 10 nested ones) x all 96 schemes over {0,1} + preset multiples for the predicate; datasets x 12 schemes x configurations for the behaviour (fresh and reused objects)',
+            'The predicate must answer a bool for every configuration and scheme in all three process modes; declared relevant implies a well-formed consensus on every incomplete dataset of the block, complete datasets are never refused, and Borda / PickAPerm / BioConsert started from them (also behind an exact or ParCons starter) refuse exactly when they declared the scheme not relevant.',
+            'one ranking requested (avoids the documented optimize/all-rankings incompatibility)'),
+    'C15': ('3/C15', 'explicit-state exploration of a transition system whose state is the complete __dict__ snapshot of (dataset, scheme): every event (about 80: all algorithm configurations x flags, score/description reads, partitions, views, write, scheme operations) from every start state under every schedule, plus all ordered pairs of events on shared objects vs fresh copies',
+            'Every event is shown to be a self-loop on the complete snapshot from every dataset of DS(3,2) (three schemes incl. an asymmetric one), DS(2,3) and the non-tieable cores of DS(3,3), under three label presentations (so, by induction, any call sequence leaves the inputs unchanged), every event run twice gives equal results (KwikSort: under the same schedule), and all ordered pairs of events on shared objects give the same second result as on fresh copies.',
+            'snapshot compares content (not object identity); events that raise must still leave inputs untouched'),
+    'C16': ('3/C16, 8.2b', 'explicit-state BFS to closure over the real Dataset mutators (histories replayed on fresh objects, canonical-state dedup) with a list-of-sets reference and view invariants in every state; every transition also on an object whose views were all read before each mutation',
+            'From every dataset of DS(3,2) and DS(2,3) under five label sets (incl. int/str mixes whose homogenisation flips after a removal) the search applies every remove_elements(S), six presence-rate thresholds and remove_empty_rankings until no new state appears; in every state all Ranking/Dataset views, the id maps in both directions, the matrices, unification, both projection routes for every kept set (also kept sets chosen before a removal) and a Consensus built from the rankings are checked against the reference.',
+            'small-scope hypothesis; removal of non-members not in the alphabet'),
+    'C17': ('3/C17, 8.2b', 'exhaustive enumeration of pairs of datasets over hash-colliding universes in every bucket insertion order, against a structural multiset oracle; equality histories (compare, mutate in place, compare)',
+            'All datasets with <=3 elements and <=2 rankings (thorough: 3 rankings / 4 elements), each bucket presented in every insertion order, over four label sets (ints colliding in set tables, strings colliding modulo 32 under the run hash seed, letters, ints whose full hashes are equal), compared pairwise (re-presentations, permutations, near misses, full cross products); ==, symmetry, != and agreement with Ranking.__eq__ matching on every pair; a compared dataset is mutated in place and compared again.',
             'CPython set iteration order for colliding keys is insertion order (guarded by a counter of equal datasets that print differently)'),
     'C18': ('3/C18', 'exhaustive enumeration of all strings over the format alphabet up to length 6 (thorough 7/8) and of all rankings/datasets of the small scope through write/parse',
-            'Every string over the 9-character format alphabet up to length 6 goes through the three parser entry points (ValueError or a result, watchdog for hangs); every ranking of SWO(4) in 30 textual renderings and every dataset of DS(3,2) through a fresh file must come back equal and structurally identical.',
+            'Every string over the 9-character format alphabet up to length 6 goes through the three parser entry points (ValueError or a result, watchdog for hangs); every ranking of SWO(4) in 30 textual renderings and every dataset of DS(3,2) through a fresh file (every other file re-uses the previous, deleted, path) must come back equal and structurally identical.',
             'element alphabet as in the statement: non-negative ints; delimiter-free non-int-like strings'),
-    'C16': ('3/C16', 'explicit-state BFS to closure over the real Dataset mutators (histories replayed on fresh objects, canonical-state dedup) with a list-of-sets reference and view invariants in every state',
-            'From every dataset of DS(3,2) and DS(2,3) under five label sets (incl. int/str mixes whose homogenisation flips after a removal) the search applies every remove_elements(S), six presence-rate thresholds and remove_empty_rankings until no new state appears; in every state all Ranking/Dataset views, the id maps in both directions, the matrices, unification and both projection routes for every kept set are compared with the reference.',
-            'small-scope hypothesis; removal of non-members not in the alphabet'),
-    'C20': ('3/C20', 'explicit-state BFS to closure over the real Markov step functions with the chooser answering every random draw; exhaustive enumeration of all random walks / shuffle outcomes of the public generators on a bounded grid',
-            'The Markov chain is explored as a transition system for n<=6 (thorough 7) in both modes: all 9366/4683 reachable states at n=6, every (element, move) transition, dense-bucket invariant in every state, and every reachable state converted to buckets through generate_rankings; the public generators are run under every random walk for (n<=3,m<=2,steps<=2), (n<=2,steps<=4) etc. and every shuffle outcome.',
+    'C19': ('3/C19, 8.2b', 'exhaustive enumeration of all 12-tuples over small value grids, all ordered pairs of the 2916 valid schemes over {0,1,2} in both query orders, all scalings; exact rational oracle',
+            'All 3^12 tuples over {0,1,2} and {-1,0,1} as ints and floats plus malformed shapes decide the validation clause with the documented exception precedence; all 8.5M ordered pairs decide both equivalence tests (general-first and complete-only-first on fresh objects) and the nickname; scaling and score homogeneity are enumerated over all valid schemes / DS(3,2) x all candidates.',
+            'penalty grid {0,.5,1,2,3}; bool/nan/inf entries not judged'),
+    'C20': ('3/C20, 8.2b', 'explicit-state BFS to closure over the real Markov step functions with the chooser answering every random draw; exhaustive enumeration of all random walks / shuffle outcomes of the public generators on a bounded grid; histories of generator calls',
+            'The Markov chain is explored as a transition system for n<=6 (thorough 7) in both modes: all 9366/4683 reachable states at n=6, every (element, move) transition, dense-bucket invariant in every state, every reachable state converted to buckets through generate_rankings; the public generators under every random walk for (n<=3,m<=2,steps<=2), (n<=2,steps<=4) etc., every shuffle outcome, and every ordered pair of sizes / modes requested one after the other in one process.',
             'random draws reach the library only through the random module (routed to the chooser; anything else raises); n=0/m=0 not claimed'),
-    'C10': ('3/C10', 'bounded-exhaustive enumeration of datasets x schemes x both flags against a reference scan of the unified input rankings',
-            'Every dataset of DS(3,2), DS(2,3) (19 schemes) and DS(4,2), DS(3,3) (5 schemes): returned rankings must be unified input rankings of minimal reference score, exactly the set of distinct minima when all are requested, and incomplete data with a scheme that is not an exact positive multiple of the unifying scheme must be refused.',
-            'small-scope hypothesis; a refusal may be any deliberate exception'),
-    'C11': ('3/C11', 'stateless exhaustive exploration of the whole pivot-choice tree (choice controller owns random.choice) for every dataset x scheme, compared with a reference KwikSort fed the recorded pivots',
-            'For every dataset of DS(3,2), DS(4,1), DS(2,3) x 16 schemes and DS(4,2), DS(3,3) x 3 schemes ALL pivot schedules are executed (about 9e5 executions): each result equals the reference simulation under the same pivots, and when the cheapest-placement relation is an antisymmetric weak order every schedule returns it.',
-            'pivot draws reach the library only via random.choice (other sources raise); n<=4 (thorough 5)'),
-    'C12': ('3/C12', 'bounded-exhaustive enumeration of datasets x 27 schemes x both variants x both flags against a reference Borda in exact rationals',
-            'Every dataset of the quick blocks under the four accepted families and their multiples {1,2,3,.5} plus 11 foreign schemes (including one with the B vector of the unifying scheme and another T): groups in increasing exact mean, tied iff equal; incomplete data with a foreign scheme must raise ScoringSchemeNotHandledException.',
-            'small-scope hypothesis'),
-    'C13': ('3/C13', 'bounded-exhaustive enumeration of datasets x 16 schemes against victories/equalities/defeats recomputed from the reference cost table',
-            'Every dataset of DS(3,2), DS(2,3), DS(4,1) x 16 schemes and DS(4,2) x 4 schemes: ranking by decreasing reference Copeland score, feature dictionaries keyed by exactly the universe with the reference numbers, counts sum to n-1 and scores to n(n-1)/2.',
-            'small-scope hypothesis; dyadic penalties so cost comparisons are exact'),
-    'C03': ('3/C03', 'bounded-exhaustive enumeration of datasets x schemes x every algorithm configuration x both flags x all schedules (pivot draws, optimal vertices) in three process modes (CPLEX absent/real CBC, CPLEX absent/enumerating solver, cplex stand-in), structural oracle',
-            'Every dataset of DS(3,2), DS(2,3), DS(1,2) under several label presentations and DS(4,2) for the in-process configurations: at least one ranking, exactly one when asked, non-empty disjoint buckets whose union is the universe with types preserved; refusals must be documented and justified; any other exception, or a run that never returns (parent-side hang detection), is a violation.',
-            'the cplex stand-in (exhaustive 0/1 enumerator behind the CPLEX API subset used) replaces the absent solver; CBC is trusted on <=30-variable models'),
-    'C04': ('3/C04', 'same enumeration as C03 with a score oracle, plus the BioConsert kernel explored from every start state of WO(k) for every distinct cost matrix',
-            'For every execution that yields a consensus the score feature is read before the lazy path runs (must be the -1 sentinel or already truthful) and kemeny_score must be a non-negative number within 1e-6 of the reference score of EVERY returned ranking; the local-search bookkeeping is checked at its source from all start states.',
-            'dyadic penalties; stand-ins as in C03'),
-    'C08': ('3/C08', 'explicit-state exploration of the local search: every start state of WO(k) x every distinct cost matrix of the block through the real sweep and one real micro-step per (state, element); plus enumeration of all single-element moves of every ranking returned by the public API',
-            'Local optimality is decided on all moves of all returned rankings for 9 BioConsert configurations, and inductively at kernel level: from every state the micro step takes a legal improving move with an exact claimed delta or, if it takes none, no move of that element improves by more than the 0.001 threshold; the sweep ends in a local optimum with exact accumulated delta.',
-            'private jitted kernels named in the anchors are driven directly (degrades to the API level if renamed); a non-terminating kernel is reported through the parent-side hang detector'),
-    'C09': ('3/C09', 'bounded-exhaustive enumeration of datasets x schemes x 9 BioConsert configurations x both flags x all pivot schedules; starters re-run alone under the same schedule',
-            'Result score <= every unified input ranking and the all-tied ranking (no starters), <= the own consensus of each starting algorithm re-run alone under the same pivot schedule, all returned rankings share one score, default BioConsert <= PickAPerm; DS(4,2) is in the quick tier because the id-order defect needs four elements.',
-            'small-scope hypothesis'),
-    'C14': ('3/C14', 'exhaustive enumeration of configurations (incl. nested) x all 96 schemes over {0,1} + preset multiples for the predicate; datasets x 12 schemes x configurations for the behaviour',
-            'The predicate must answer a bool for every configuration and scheme in all three process modes; declared relevant implies a well-formed consensus on every incomplete dataset of the block, complete datasets are never refused, and Borda / PickAPerm / BioConsert started from them refuse exactly when they declared the scheme not relevant.',
-            'one ranking requested (avoids the documented optimize/all-rankings incompatibility)'),
-    'C05': ('3/C05', 'bounded-exhaustive enumeration of datasets x schemes x exact configurations x both flags x EVERY optimal vertex the solver may return, against a brute-force optimum over all rankings with ties; solver replaced by an exhaustive 0/1 enumerator (cplex stand-in, PuLP stand-in) and by real CBC',
-            'Every dataset of DS(3,2) x 16 schemes, DS(3,3), DS(4,2), DS(2,3) on fewer schemes: result score == brute-force optimum; non-optimised CPLEX model with all rankings requested returns exactly the set of minimisers; the feasible set of the unpruned ILP is in bijection with WO(U) with objective == score at every point; the selector takes CPLEX when present and falls back to the free solver (real CBC) when absent. Thorough: structured families at n=6..8 against a subset-DP oracle.',
-            'real CPLEX never run (stand-in returns exactly the optimal points); CBC trusted on <=30-variable models and cross-checked by the enumerator'),
-    'C06': ('3/C06', 'bounded-exhaustive enumeration of datasets x schemes x ParCons configurations (bounds, auxiliaries, all pivot schedules, three solver modes) against the set of ALL brute-force minimisers',
-            'parcons_partition is a partition and some minimiser respects it; the ParCons consensus respects it and reports it as weak partitioning; necessarily_optimal implies optimal for EVERY configuration; the ParCons flag equals "no component larger than the bound that cannot be all-tied at minimal cost" computed by the reference. All of DS(3,2), DS(3,3), and DS(4,2) for the partition.',
-            'stand-ins as in C05'),
-    'C07': ('3/C07', 'bounded-exhaustive enumeration of datasets x schemes against the set of ALL brute-force minimisers; exhaustive enumeration of all (ordered partition, consensus) pairs for the consistency test',
-            'For every dataset of DS(3,2) x 16 schemes, DS(3,3) x 6, DS(4,2) x 2: ParFront is a partition, a merge of consecutive ParCons groups, and every minimiser respects it; consistent_with is compared with its definition on all pairs of WO(U) x (WO(U) + rankings over sub/super/other sets), n<=4, with and without an associated dataset, under a watchdog.',
-            'malformed partitions / consensuses not covering their dataset are outside the property'),
-    'C15': ('3/C15', 'explicit-state exploration of a transition system whose state is the complete __dict__ snapshot of (dataset, scheme): every event (75: all algorithm configurations x flags, score/description reads, partitions, views, write, scheme operations) from every start state under every schedule, plus all ordered pairs of events on shared objects vs fresh copies',
-            'Every event is shown to be a self-loop on the complete snapshot from every dataset of DS(3,2) under three label presentations (so, by induction, any call sequence leaves the inputs unchanged), every event run twice gives equal results (KwikSort: under the same schedule), and all ordered pairs of events on shared objects give the same second result as on fresh copies (hidden global state).',
-            'snapshot compares content (not object identity); events that raise must still leave inputs untouched'),
 }
 
 PENDING = {}
